@@ -896,3 +896,26 @@ def mixed_int_float_game(rng):
     g["transition_list"][2] = [(1.0, win)]          # float probability: this branch is computed in floating point
     g["rewards"][2] = float(big)
     return g
+
+
+def final_player_game(rng):
+    """a Player-1 (or Player-2) state that is ITSELF a final state but not absorbing: its actions lead to
+    successors with different positive reach probabilities, the worse one carrying the larger reward.  The state
+    is the initial state or its only successor."""
+    kind = rng.choice([P1, P1, P2])
+    first = rng.random() < 0.5
+    qa, qb = rng.sample([Fr(1, 4), Fr(1, 2), Fr(3, 4)], 2)
+    hi, lo = (qa, qb) if qa > qb else (qb, qa)
+    base = 0 if first else 1
+    s, a, b, lose, win = base, base + 1, base + 2, base + 3, base + 4
+    players, xtl, rewards = ([], [], []) if first else ([rng.choice([P1, P2, PR])], [None], [rng.choice([0, 1])])
+    if not first:
+        xtl[0] = [(Fr(1), s)] if players[0] == PR else [("go", s)]
+    order = [(ACTIONS[0], a), (ACTIONS[1], b)]
+    if rng.random() < 0.5:
+        order = [(ACTIONS[0], b), (ACTIONS[1], a)]
+    players += [kind, PR, PR, PR, PR]
+    rewards += [rng.choice([0, 2]), rng.choice([0, 1]), rng.choice([5, 9]), 0, 0]      # b: worse reach, larger reward
+    xtl += [order, [(hi, win), (1 - hi, lose)], [(lo, win), (1 - lo, lose)], [(Fr(1), lose)], [(Fr(1), win)]]
+    finals = [win, s] if rng.random() < 0.5 else [s, win]
+    return finish(rewards, players, xtl, finals, {"family": "final_player"})
